@@ -57,6 +57,10 @@ type Ctx struct {
 	// harness logqlsql plans the statement with time.Local set to it; nothing on the data side depends on it: the writer
 	// dates the index rows by the UTC day, the reference meaning has no zone.
 	TZ string `json:"tz,omitempty"`
+	// NoCHFinalize (round 8): harness logqlsql builds the PlannerContext WITHOUT the flag CHFinalize (the zero value of the
+	// field): MainFinalizerPlanner.Process returns the select under the outermost one (five columns, ORDER BY timestamp_ns,
+	// LIMIT). The reference meaning does not know the flag (theorem logql_log_correct_any_finalize).
+	NoCHFinalize bool `json:"no_ch_finalize,omitempty"`
 }
 
 type Series struct {
@@ -2097,6 +2101,35 @@ func main() {
 			}
 			c.Runs = 1 + len(c.Rewin)
 			out.Put(c)
+		}
+		// the configuration branch `if !ctx.CHFinalize { return req, nil }` of MainFinalizerPlanner (round 8), from a stream of its
+		// own: queries of every class planned with Plan(script, true) under a context that does NOT set the flag; the statement
+		// is the operand of the usual outermost select and must still return exactly the matching lines (top-L with a limit).
+		r6 := hx.Rand(f.Seed*49979687 + 19)
+		for i := 0; i < f.N/8+6; i++ {
+			var q string
+			var class []string
+			switch r6.Intn(6) {
+			case 0:
+				q, class = genLineFormat(r6)
+			case 1:
+				q, class = genEmptyLabelFilter(r6)
+			case 2:
+				q, class = genParserQuery(r6)
+			case 3:
+				q, class = genFilterBehindRelabel(r6)
+			default:
+				q, class = genQuery(r6)
+			}
+			from := int64(1700000000)*1e9 + int64(r6.Intn(4*86400))*1e9
+			if r6.Intn(6) == 0 {
+				from = (int64(19700+r6.Intn(30))*86400 + int64(r6.Intn(3600))) * 1e9
+			}
+			out.Put(Case{ID: 5*f.N + i, Query: q, Class: append(class, "ch-finalize-off"), Runs: 1, Ctx: Ctx{
+				FromNs: from, ToNs: from + int64(1+r6.Intn(7200))*1e9,
+				Limit: []int64{0, 1, 1, 2, 3, 100}[r6.Intn(6)], Asc: r6.Intn(2) == 0, Cluster: r6.Intn(4) == 0,
+				Type: []uint8{0, 1, 1, 2}[r6.Intn(4)], Finalize: true, StepMs: 1000, NoCHFinalize: true,
+			}})
 		}
 	case "dbselftest":
 		// the database builder on queries with non-ASCII values: every database has ONE label set per fingerprint (compared
